@@ -134,12 +134,21 @@ impl Shards {
                 let _ = write!(s, "c{}", j);
             }
             s.push_str("].\n");
+            // corr_* / prop_* report the FAILING indices, hyp_* / known_* the HOLDING ones
             for (tag, f) in &self.evals {
-                let _ = writeln!(
-                    s,
-                    "Eval vm_compute in (\"{}\"%string, failing ({}) cases).",
-                    tag, f
-                );
+                if tag.starts_with("hyp_") || tag.starts_with("known_") {
+                    let _ = writeln!(
+                        s,
+                        "Eval vm_compute in (\"{}\"%string, failing (fun c => negb (({}) c)) cases).",
+                        tag, f
+                    );
+                } else {
+                    let _ = writeln!(
+                        s,
+                        "Eval vm_compute in (\"{}\"%string, failing ({}) cases).",
+                        tag, f
+                    );
+                }
             }
             fs::write(self.dir.join(format!("shard_{}.v", k)), s).unwrap();
         }
